@@ -141,4 +141,75 @@ KeyUnwrap(P, Y, I, d) ==
 
 \* ---- DH
 DH(P, d, Qo, n) == TakeN(PtOct(P, EB!ScalarMulJ(Curve(P), d, PtOf(P, Qo))), n)
+
+\* ---------------------------------------------------------------- appendix B: identity-based signature
+(* A trusted party with the key pair (d, Q) signs the hash H0 of an identifier with alg. 7.1.3:  S = S0 || S1.
+   B.2.3 extract:     verify S (7.1.4):  |S| = 3l;  \bar S1 < q;  R = ((\bar S1 + \bar H0) mod q) G + (\bar S0 + 2^l) Q;
+                      R # O;  <belt-hash(OID || <R>_2l || H0)>_l = S0.  Then  e = (\bar S1 + \bar H0) mod q  and the
+                      identity key pair is (e, R):  e in {0, 1, .., q-1}  (EVERY residue is a legitimate identity key:
+                      e = k - (\bar S0 + 2^l) d for the trusted party's one-time key k, so  R = k G = e G + (\bar S0 + 2^l) Q).
+   B.2.4 id-sign:     k <-R {1..q-1};  V = k G;  S0 = <belt-hash(OID || <V>_2l || H0 || H)>_l;
+                      S1 = <(k - \bar H - (\bar S0 + 2^l) e) mod q>_2l.   Deterministic variant: k by alg. 6.3.3 with e in
+                      the place of d.
+   B.2.5 id-verify:   |S| = 3l;  \bar S1 < q;  t = <belt-hash(OID || <R>_2l || H0)>_l;
+                      V = ((\bar S1 + \bar H) mod q) G + (\bar S0 + 2^l) R - ((\bar S0 + 2^l)(\bar t + 2^l) mod q) Q;
+                      V # O;  <belt-hash(OID || <V>_2l || H0 || H)>_l = S0.
+   (e G = R - (\bar t + 2^l) Q: the verifier recovers the signer's public key from the identity key R and the trusted
+   party's key Q.)  bign.h: the identity public key R is a point of the curve, the trusted party's key as in 7.1.4. *)
+SigS0Num(P, sig) == Num(SubSeq(sig, 1, P.no \div 2))
+SigS1Num(P, sig) == Num(SubSeq(sig, P.no \div 2 + 1, Len(sig)))
+\* B.2.3: [st, e, R]  st as in Verify
+IdExtract(P, oid, H0, sig, Qo) ==
+  LET no == [st |-> "sig", e |-> Zero, R |-> <<>>]
+  IN IF ~OidValid(oid) THEN [no EXCEPT !.st = "oid"] ELSE
+     IF ~PubkeyValid(P, Qo) THEN [no EXCEPT !.st = "pubkey"] ELSE
+     IF ~SigInRange(P, sig) THEN no ELSE
+     LET R == VerifyR(P, H0, sig, Qo)
+     IN IF EB!IsO(R) THEN no
+        ELSE IF HashL(P, oid, R, H0) # SubSeq(sig, 1, P.no \div 2) THEN no
+        ELSE [st |-> "ok", e |-> Mod(Add(SigS1Num(P, sig), Mod(Num(H0), P.q)), P.q), R |-> R]
+\* the identity private key a VALID signature defines (no scalar multiplication)
+IdPrivOf(P, H0, sig) == Mod(Add(SigS1Num(P, sig), Mod(Num(H0), P.q)), P.q)
+IdKeyInRange(P, e) == Less(e, P.q)                                        \* e in {0, .., q-1}
+
+\* B.2.4
+HashL2(P, oid, V, H0, H) == TakeN(BM!Hash(oid \o XOct(P, V) \o H0 \o H), P.no \div 2)
+IdSign(P, oid, H0, H, e, k) ==
+  LET V == EB!ScalarMulJ(Curve(P), k, G(P))
+      S0 == HashL2(P, oid, V, H0, H)
+  IN S0 \o Oct(S1Of(P, Num(S0), H, e, k), P.no)
+
+\* B.2.5.  ks[1] Ps[1] + ks[2] Ps[2] + ... evaluated in ONE pass over the bits (doubling shared): the same sum as
+\* EB!MulAddJ (BignVectors checks it on the appendix data); points affine, not O.
+MulAddShared(E, ks, Ps) ==
+  LET nb == FoldLeft(LAMBDA m, i : Max2(m, BitLen(ks[i])), 0, Rng(1, Len(ks)))
+  IN EB!JToA(E, FoldLeft(LAMBDA acc, b :
+                   FoldLeft(LAMBDA a2, i : IF Bit(ks[i], nb - b) = 1 THEN EB!JAddA(E, a2, Ps[i]) ELSE a2,
+                            EB!JDbl(E, acc), Rng(1, Len(ks))),
+                 EB!JO, Rng(1, nb)))
+\* the point V of B.2.5 as the standard writes it
+IdVerifyV(P, oid, H0, H, sig, Ro, Qo) ==
+  LET E == Curve(P)
+      s0 == Add(SigS0Num(P, sig), PowL(P))
+      t == Add(Num(HashL(P, oid, PtOf(P, Ro), H0)), PowL(P))
+      u == Mod(Add(SigS1Num(P, sig), Mod(Num(H), P.q)), P.q)
+  IN EB!PSub(E, EB!MulAddJ(E, <<u, s0>>, <<G(P), PtOf(P, Ro)>>), EB!ScalarMulJ(E, Mod(Mul(s0, t), P.q), PtOf(P, Qo)))
+\* the same point, cheaper:  u G + s0 (R - t Q)  (group law; - t' Q = - s0 (t Q) because q Q = O), one shared pass
+IdVerifyV2(P, oid, H0, H, sig, Ro, Qo) ==
+  LET E == Curve(P)
+      s0 == Add(SigS0Num(P, sig), PowL(P))
+      t == Add(Num(HashL(P, oid, PtOf(P, Ro), H0)), PowL(P))
+      u == Mod(Add(SigS1Num(P, sig), Mod(Num(H), P.q)), P.q)
+      W == EB!PSub(E, PtOf(P, Ro), EB!ScalarMulJ(E, t, PtOf(P, Qo)))          \* R - (t + 2^l) Q  ( = e G )
+  IN IF EB!IsO(W) THEN EB!ScalarMulJ(E, u, G(P))
+     ELSE IF IsZero(u) THEN EB!ScalarMulJ(E, s0, W)
+     ELSE MulAddShared(E, <<u, s0>>, <<G(P), W>>)
+\* "ok" | "sig" | "pubkey" | "oid"
+IdVerify(P, oid, H0, H, sig, Ro, Qo) ==
+  IF ~OidValid(oid) THEN "oid" ELSE
+  IF ~PubkeyValid(P, Ro) \/ ~PubkeyValid(P, Qo) THEN "pubkey" ELSE
+  IF ~SigInRange(P, sig) THEN "sig" ELSE
+  LET V == IdVerifyV2(P, oid, H0, H, sig, Ro, Qo)
+  IN IF EB!IsO(V) THEN "sig"
+     ELSE IF HashL2(P, oid, V, H0, H) = SubSeq(sig, 1, P.no \div 2) THEN "ok" ELSE "sig"
 =============================================================================
